@@ -28,6 +28,8 @@ def clause_map(gen_path):
     fn_ranges = []
     depth_fn_start = None
     cur_clause_lines = []
+    pending_label = None
+    cur_label = None
     i = 0
     fn_re = re.compile(r"^\s*(?:pub\s+)?(?:proof\s+)?fn\s+(\w+)")
     while i < len(lines):
@@ -39,6 +41,9 @@ def clause_map(gen_path):
             idx = {"requires": 0, "ensures": 0}
             depth_fn_start = i + 1
         st = l.strip()
+        ml = re.match(r"// @(\w+)", st)
+        if fn and kind and ml:
+            pending_label = ml.group(1)
         if fn and st in ("requires", "ensures"):
             kind = st
         elif fn and kind and st and not st.startswith("//") and not st.startswith("{"):
@@ -47,8 +52,10 @@ def clause_map(gen_path):
             else:
                 idx[kind] += 1
                 cur_clause_lines = []
+                cur_label = pending_label
+                pending_label = None
             cur_clause_lines.append(i + 1)
-            out[i + 1] = (fn, kind, idx[kind], st)
+            out[i + 1] = (fn, kind, ("@" + cur_label) if cur_label else ("#%d" % idx[kind]), st)
         if fn and st.startswith("{") and kind:
             kind = None
             cur_clause_lines = []
@@ -82,7 +89,7 @@ def parse_errors(stderr, cmap, gen_lines):
         for ln in [primary] + labelled:
             if ln in cmap:
                 f, kind, k, text = cmap[ln]
-                names.append("%s.%s#%d" % (f, kind, k))
+                names.append("%s.%s%s" % (f, kind, k))
         fn = fn_of_line.get(primary)
         # a failed callee precondition / overflow is reported at the body line
         if re.search(r"postcondition not satisfied|precondition not satisfied|invariant not satisfied|assertion failed"
@@ -148,7 +155,7 @@ def run_verus_property(pid, cfg, tier, seed, clock):
         obligations = []
         for ln, (f, kind, k, text) in sorted(cmap.items()):
             if kind == "ensures" and f in contract_fns:
-                name = "%s.ensures#%d" % (f, k)
+                name = "%s.ensures%s" % (f, k)
                 if name not in [o["name"] for o in obligations]:
                     obligations.append({"name": name, "text": text})
         for f in contract_fns:
@@ -189,14 +196,15 @@ def run_verus_property(pid, cfg, tier, seed, clock):
         findings = [f for f in findings if f.get("property") == pid]
         new_fail = []
         for n in sorted(failed_names):
+            kf = [f for f in findings if f.get("obligation") == n]
+            if kf:
+                # a recorded genuine defect: reported on every run, never an alarm
+                known.append((n, "verus", kf[0]["text"]))
+                continue
             if n not in baseline:
                 undecided.append("obligation %s is not discharged and is not in the baseline (never proved) -- undecided" % n)
                 continue
-            kf = [f for f in findings if f.get("obligation") == n]
-            if kf:
-                known.append((n, "verus", kf[0]["text"]))
-            else:
-                new_fail.append(n)
+            new_fail.append(n)
         if new_fail:
             # Verus gives no model: search natively for a failing input against the real code
             import native_search
@@ -215,14 +223,17 @@ def run_verus_property(pid, cfg, tier, seed, clock):
             violations.append(("verus", [{"tag": n} for n in new_fail], rpath, suffix))
 
         discharged = [n for n in names if n not in failed_names]
+        known_names = set(k[0] for k in known)
         cov = {
-            "obligations": len(names),
+            # obligations refuted by a recorded known finding are reported separately, not counted
+            "obligations": len([n for n in names if n not in known_names]),
+            "refuted_known_findings": sorted(known_names),
             "discharged": len(discharged),
             "verus_functions_verified": n_verified,
             "verus_function_breakdown": [{"function": b["function"], "rlimit": b.get("rlimit"), "ms": b.get("time"), "success": b.get("success")} for b in breakdown],
             "solver_seconds_total": round(j.get("times-ms", {}).get("smt", {}).get("total", 0) / 1000.0, 3),
             "back_end": "Verus %s / Z3" % j.get("verus", {}).get("version", "?"),
-            "extraction": {k: report[k] for k in ("extracted_lines", "deleted_lines", "pub_crate_widened", "bodies_rewritten")},
+            "extraction": {k: report[k] for k in ("extracted_lines", "deleted_lines", "pub_crate_widened", "bodies_rewritten", "ghost_hint_lines_inserted")},
             "extracted_items": report["items"],
             "obligation_names": names,
             "samples": [{"obligation": o["name"], "clause": o["text"]} for o in obligations[:8]],
